@@ -343,9 +343,6 @@ def lin_exact(arr, kind):
     return arr
 
 
-LOG_EINSUM_MAX_DIMS = 24
-
-
 def sarkka_ndims(vars_, lagsets):
     """Upper bound on the number of distinct dims in the block-chain contraction: per variable the block's
     shifted names (period + max lag) and its _drop_ names (period), plus time, segment time and a global."""
@@ -374,10 +371,6 @@ def gen_sarkka(rng, tier):
     num_periods = rng.choice([1, 1, 2, 3])
     srname = rng.choice(list(SEMIRINGS))
     glob = rng.random() < 0.35
-    if srname == "logaddexp-add" and sarkka_ndims(vars_, lagsets) > LOG_EINSUM_MAX_DIMS:
-        # funsor/einsum/numpy_log.py mis-renames einsum symbols beyond 26 distinct dims (finding
-        # KF-logeinsum-26dims: wrong values or ValueError); not C10's mechanism — keep the clean stream away
-        srname = rng.choice([n for n in SEMIRINGS if n != "logaddexp-add"])
     inputs = [("time", T)]
     for v in vars_:
         inputs.append((v, sizes[v]))
@@ -575,9 +568,10 @@ def run_sarkka(c, which):
 
 
 def backend_limit(c, msg):
-    """The one decline the model does not predict: numpy_log.einsum beyond 26 distinct dims."""
-    return (c["sr"] == "logaddexp-add" and sarkka_ndims(c["vars"], c["lagsets"]) > LOG_EINSUM_MAX_DIMS
-            and msg.startswith("ValueError"))
+    """The one decline the model does not predict: funsor/einsum/numpy_log.py refuses more than 52 distinct
+    einsum dims (NotImplementedError "too many einsum dimensions"); 27..52 dims must be right (they were silently
+    wrong before fix 86a8617, found by this stream)."""
+    return c["sr"] == "logaddexp-add" and msg.startswith("NotImplementedError: too many einsum dimensions")
 
 
 def check_sarkka(ctx, c, use_driver=True):
@@ -590,6 +584,8 @@ def check_sarkka(ctx, c, use_driver=True):
                inputs=c["inputs"], data=c["data"].tolist())
     ctx.count(f"sarkka:lags={all_lags}")
     ctx.count(f"sarkka:sr={c['sr']}")
+    if c["sr"] == "logaddexp-add" and sarkka_ndims(c["vars"], c["lagsets"]) > 26:
+        ctx.count("sarkka:log-semiring-above-26-dims")
     ctx.count(f"sarkka:T%p={'na' if not all_lags else T % int(np.lcm.reduce(all_lags))}")
     G = 2 if c["glob"] else 1
     tabs = [sarkka_tables(c, g) for g in range(G)]
@@ -722,34 +718,6 @@ def sarkka_exhaustive(ctx):
                 c = dict(vars=["x"], lagsets={"x": list(lags)}, sizes={"x": 2}, S=2, k=max(lags), T=T,
                          num_periods=npz, sr=srname, glob=False, inputs=inputs, data=data)
                 check_sarkka(ctx, c)
-
-
-def logeinsum_known(ctx):
-    """Dedicated stream for KF-logeinsum-26dims (funsor/einsum/numpy_log.py: symbol renaming truncates at 26
-    distinct dims): a (logaddexp, add) contraction over 28 distinct inputs returns log 60 instead of log 80.
-    Not C10's mechanism; reproduced here because sarkka_bilmes_product with period 6 and two state variables
-    reaches that many dims.  While the id is not listed as open this stream only counts."""
-    from funsor.cnf import Contraction
-    n1 = [f"u{i:02d}" for i in range(14)]
-    n2 = [f"v{i:02d}" for i in range(14)]
-
-    def mk(names, big, vals):
-        shape = tuple(2 if n in big else 1 for n in names)
-        return Tensor(np.log(np.array(vals, dtype=float)).reshape(shape),
-                      OrderedDict((n, Bint[sz]) for n, sz in zip(names, shape)))
-    f = mk(n1, ("u01", "u03"), [1., 2., 3., 4.])
-    g = mk(n2, ("v08", "v10"), [1., 1., 1., 5.])
-    red = frozenset(Variable(n, t.inputs[n]) for t in (f, g) for n in t.inputs)
-    try:
-        got = float(np.exp(Contraction(ops.logaddexp, ops.add, red, f, g).data))
-        reproduced = abs(got - 80.0) > 1e-6
-    except (ValueError, NotImplementedError, AssertionError):
-        got, reproduced = "declined", False
-    what = f"(logaddexp, add) contraction over 28 distinct dims: got {got}, expected 80"
-    if ctx.is_open("KF-logeinsum-26dims"):
-        ctx.known("KF-logeinsum-26dims", reproduced, what=what)
-    else:
-        ctx.count("kf-logeinsum-26dims:" + ("reproduced-unlisted" if reproduced else "not-reproduced"))
 
 
 def name_arith_cases(ctx):
@@ -1024,7 +992,6 @@ def correspond(ctx):
         check_case(ctx, c)
     quick = ctx.tier == "quick"
     name_arith_cases(ctx)
-    logeinsum_known(ctx)
     sarkka_exhaustive(ctx)
     for _ in range(120 if quick else 2000):
         check_sarkka(ctx, gen_sarkka(ctx.rng, ctx.tier))
